@@ -331,3 +331,58 @@ Ltac lines_loop ENC STEP M0 :=
       clear HB ]
   end.
 
+(* ---------------------------------------------------------------- one-step rewriting lemmas (used where `cbn` on a
+   whole generated function would leave conversions that are slow to re-check at Qed) *)
+
+Lemma xbind_done {X Y : Type} (x : X) (h : xexn -> Y) (k : X -> Y) : xbind (XDone x) h k = k x.
+Proof. reflexivity. Qed.
+Lemma xbind_fail {X Y : Type} (e : xexn) (h : xexn -> Y) (k : X -> Y) : xbind (@XFail X e) h k = h e.
+Proof. reflexivity. Qed.
+Lemma xthen_done {X Y : Type} (x : X) (k : X -> xres Y) : xthen (XDone x) k = k x.
+Proof. reflexivity. Qed.
+Lemma xthen_fail {X Y : Type} (e : xexn) (k : X -> xres Y) : xthen (@XFail X e) k = XFail e.
+Proof. reflexivity. Qed.
+
+Section Steps.
+Context {T C S : Type}.
+Notation val := (pyval T C S).
+
+Lemma path_join_strs (pj : list pstr -> pstr) (l : list pstr) :
+  @dy_path_join T C S pj (map VStr l) = XDone (VStr (pj l)).
+Proof.
+  unfold dy_path_join. assert (H : @strs_of T C S (map VStr l) = Some l).
+  { induction l as [|s r IH]; cbn [map strs_of]; [reflexivity | now rewrite IH]. }
+  now rewrite H.
+Qed.
+
+Lemma truth_bool (b : bool) : @dy_truth T C S (VBool b) = XDone b.
+Proof. reflexivity. Qed.
+
+Lemma upd_attr_set (a : list (pstr * val)) n (v old : val) :
+  afind n a = Some old -> dy_upd_attr (VObj a) n (fun _ => XDone v) = XDone (VObj (aput n v a)).
+Proof. intros H. now rewrite (upd_attr_found a n old _ H). Qed.
+
+Lemma setattr_obj (a : list (pstr * val)) n (v : val) : dy_setattr (VObj a) n v = XDone (VObj (aput n v a)).
+Proof. reflexivity. Qed.
+
+Lemma call_scorer_empty (f : list (pstr * T) -> pstr -> pstr -> outcome (list (pstr * T) * bool)) path enc :
+  @call_scorer_load_from_file T C S f (VDict []) (VStr path) (VStr enc) =
+  match f [] path enc with
+  | Done (d, b) => XDone (val_of_counter d, VBool b)
+  | Fail e => XFail (XBase e)
+  end.
+Proof. unfold call_scorer_load_from_file. cbn [counter_of_val counter_of_vals]. now destruct (f [] path enc) as [[d b]|e]. Qed.
+
+Lemma cfg_read_file_new (O : cfg_oracles T C S) n :
+  dy_cfg_read_file O VCfgNew (VStr n) = xthen (cp_read_file O n) (fun x => XDone (VCfg x)).
+Proof. reflexivity. Qed.
+
+Lemma cfg_get_str (O : cfg_oracles T C S) c s o :
+  dy_cfg_get O (VCfg c) (VStr s) (VStr o) = xthen (cp_get O c s o) (fun v => XDone (VStr v)).
+Proof. reflexivity. Qed.
+
+Lemma getitem_cfg (O : cfg_oracles T C S) c s :
+  dy_getitem O (VCfg c) (VStr s) = xthen (cp_section O c s) (fun r => XDone (VSect r)).
+Proof. reflexivity. Qed.
+
+End Steps.
